@@ -574,22 +574,272 @@ def translate(lock):
                                        state_variants=len(sv), message_variants=len(mv), conversions={k: list(v) if not isinstance(v[0], tuple) else [list(v[0]), list(v[1])] for k, v in conv.items()})
 
 
+# ================================================================ biquad: the one-pole coefficients and DirectForm1 (f32)
+FTOK = re.compile(r"\s*(?:(\d[\d_]*\.\d*(?:_?f32)?|\d[\d_]*_?f32)|(\d[\d_]*)|([A-Za-z_][A-Za-z0-9_]*)|(::|=>|==|->|<=|>=|[{}()\[\],;=&.<>!|:@#+\-*/]))")
+
+
+def flex(s):
+    s = strip_comments(s)
+    pos, out = 0, []
+    while pos < len(s):
+        m = FTOK.match(s, pos)
+        if not m:
+            if s[pos:].strip() == "":
+                break
+            k = len(s[pos:]) - len(s[pos:].lstrip())
+            out.append(("p", s[pos + k]))
+            pos += k + 1
+            continue
+        pos = m.end()
+        if m.group(1) is not None:
+            out.append(("float", m.group(1).replace("_", "").replace("f32", "").rstrip(".") or "0"))
+        elif m.group(2) is not None:
+            out.append(("int", int(m.group(2).replace("_", ""))))
+        elif m.group(3) is not None:
+            out.append(("id", m.group(3)))
+        else:
+            out.append(("p", m.group(4)))
+    return out
+
+
+class FP(P):
+    """float expressions: + - * / with the usual precedence, comparisons < >, paths, `x.hz()`, field access"""
+
+    def cmp(self):
+        l = self.add()
+        if self.at(">") or self.at("<"):
+            op = self.eat()[1]
+            r = self.add()
+            return ("cmp", op, l, r)
+        return l
+
+    def add(self):
+        l = self.mul()
+        while self.at("+") or self.at("-"):
+            op = self.eat()[1]
+            l = ("arith", op, l, self.mul())
+        return l
+
+    def mul(self):
+        l = self.atom()
+        while self.at("*") or self.at("/"):
+            op = self.eat()[1]
+            l = ("arith", op, l, self.atom())
+        return l
+
+    def atom(self):
+        tk = self.peek()
+        if tk[0] == "float":
+            self.eat()
+            return ("flit", tk[1])
+        if tk == ("p", "("):
+            self.eat()
+            e = self.cmp()
+            self.eat("p", ")")
+            return e
+        if tk[0] != "id":
+            raise Unsupported(f"float expression: unexpected token {tk[1]!r}")
+        e = ("path", self.path())
+        while self.at("."):
+            self.eat()
+            name = self.eat("id")[1]
+            if self.at("("):
+                self.eat(); self.eat("p", ")")
+                e = ("method", e, name, [])
+            else:
+                e = ("field", e, name)
+        return e
+
+
+def femit(e, selfname="d"):
+    k = e[0]
+    if k == "flit":
+        num = e[1]
+        if "." in num:
+            a, b = num.split(".")
+            q = f"{int(a + b)} / {10 ** len(b)}" if b else a
+        else:
+            q = num
+        return f"(lit ({q}))"
+    if k == "arith":
+        op = {"+": "F32.add", "-": "F32.sub", "*": "F32.mul", "/": "F32.div"}[e[1]]
+        return f"({op} {femit(e[2], selfname)} {femit(e[3], selfname)})"
+    if k == "cmp":
+        a, b = femit(e[2], selfname), femit(e[3], selfname)
+        return f"(F32.lt {b} {a})" if e[1] == ">" else f"(F32.lt {a} {b})"
+    if k == "path":
+        n = e[1]
+        if n == ["core", "f32", "consts", "PI"]:
+            return "Deps.pi32"
+        if len(n) == 1:
+            return selfname if n[0] == "self" else n[0]
+        raise Unsupported(f"path {'::'.join(n)} in a float expression")
+    if k == "method":
+        if e[2] == "hz":
+            return f"{femit(e[1], selfname)}.v"
+        raise Unsupported(f"method .{e[2]}() in a float expression")
+    if k == "field":
+        return f"{femit(e[1], selfname)}.{e[2]}"
+    raise Unsupported(f"float expression form {k}")
+
+
+def seek(toks, seq, start=0):
+    for i in range(start, len(toks) - len(seq) + 1):
+        if all(toks[i + j][1] == seq[j] for j in range(len(seq))):
+            return i
+    raise Unsupported("token sequence not found: " + " ".join(map(str, seq)))
+
+
+def translate_biquad(lock):
+    vers = lock_versions(lock)
+    src = registry_src("biquad", vers.get("biquad"))
+    # ---- Coefficients::<f32>::from_params, the arm for the filter type in use
+    toks = flex(open(os.path.join(src, "coefficients.rs")).read())
+    i = seek(toks, ["impl", "Coefficients", "<", "f32", ">", "{"])
+    i = seek(toks, ["fn", "from_params", "("], i)
+    sig_end = seek(toks, [")", "->"], i)
+    params = [toks[j][1] for j in range(i + 3, sig_end) if toks[j][0] == "id" and toks[j + 1] == ("p", ":")]
+    if params != ["filter", "fs", "f0", "q_value"]:
+        raise Unsupported(f"from_params has parameters {params}")
+    p = FP(toks)
+    p.i = seek(toks, ["{"], sig_end)
+    p.eat("p", "{")
+    guards, lets = [], []
+    while not p.at("match"):
+        if p.at("if"):
+            p.eat()
+            c = p.cmp()
+            p.eat("p", "{"); p.eat("id", "return"); p.eat("id", "Err"); p.eat("p", "(")
+            p.path(); p.eat("p", ")"); p.eat("p", ";"); p.eat("p", "}")
+            guards.append(c)
+        elif p.at("let"):
+            p.eat()
+            nm = p.eat("id")[1]
+            p.eat("p", "=")
+            lets.append((nm, p.cmp()))
+            p.eat("p", ";")
+        else:
+            raise Unsupported("from_params: unexpected statement before `match filter`")
+    p.eat("id", "match"); p.eat("id", "filter"); p.eat("p", "{")
+    p.i = seek(toks, ["Type", "::", "SinglePoleLowPassApprox", "=>", "{"], p.i) + 5
+    while p.at("let"):
+        p.eat()
+        nm = p.eat("id")[1]
+        p.eat("p", "=")
+        lets.append((nm, p.cmp()))
+        p.eat("p", ";")
+    p.eat("id", "Ok"); p.eat("p", "("); p.eat("id", "Coefficients"); p.eat("p", "{")
+    fields = []
+    while not p.at("}"):
+        f = p.eat("id")[1]
+        p.eat("p", ":")
+        fields.append((f, p.cmp()))
+        if p.at(","):
+            p.eat()
+    p.eat("p", "}"); p.eat("p", ")")
+    if sorted(f for f, _ in fields) != ["a1", "a2", "b0", "b1", "b2"]:
+        raise Unsupported(f"Coefficients literal has fields {[f for f, _ in fields]}")
+    out = ["import SynthVerif.Src.Deps",
+           f"/-! GENERATED by tools/dep2lean.py from biquad {vers.get('biquad')} src/coefficients.rs and src/lib.rs in the cargo registry.  Do not edit. -/",
+           "open F32 Rs", "namespace Dep.biquad", "",
+           "/-- `Coefficients::<f32>::from_params(Type::SinglePoleLowPassApprox, fs, f0, q_value)`; `none` = `Err(_)` -/",
+           "def from_params_single_pole_approx (fs f0 : Deps.Hertz) (q_value : F32) : Option Deps.Coefficients :="]
+    body = ""
+    for g in guards:
+        body += f"  if {femit(g)} then none else\n"
+    for nm, e in lets:
+        body += f"  let {nm} := {femit(e)}\n"
+    body += "  some { " + ", ".join(f"{f} := {femit(e)}" for f, e in fields) + " }"
+    out.append(body + "\n")
+    # ---- DirectForm1::<f32>: new, run, update_coefficients
+    lt = flex(open(os.path.join(src, "lib.rs")).read())
+    i = seek(lt, ["impl", "DirectForm1", "<", "f32", ">", "{"])
+    i = seek(lt, ["fn", "new", "(", "coefficients"], i)
+    q = FP(lt)
+    q.i = seek(lt, ["DirectForm1", "{"], i) + 2
+    nf = []
+    while not q.at("}"):
+        f = q.eat("id")[1]
+        q.eat("p", ":")
+        nf.append((f, q.cmp()))
+        if q.at(","):
+            q.eat()
+    if sorted(f for f, _ in nf) != ["coeffs", "x1", "x2", "y1", "y2"]:
+        raise Unsupported(f"DirectForm1 literal has fields {[f for f, _ in nf]}")
+    out.append("/-- `DirectForm1::<f32>::new(coefficients)` -/")
+    out.append("def new (coefficients : Deps.Coefficients) : Deps.DirectForm1 :=\n  { " + ", ".join(f"{f} := {femit(e)}" for f, e in nf) + " }\n")
+    i = seek(lt, ["impl", "Biquad", "<", "f32", ">", "for", "DirectForm1", "<", "f32", ">", "{"])
+    i = seek(lt, ["fn", "run", "(", "&", "mut", "self", ",", "input", ":", "f32", ")"], i)
+    q.i = seek(lt, ["{"], i) + 1
+    q.eat("id", "let")
+    onm = q.eat("id")[1]
+    q.eat("p", "=")
+    oexp = q.cmp()
+    q.eat("p", ";")
+    steps = []
+    while q.peek() == ("id", "self"):
+        q.eat(); q.eat("p", ".")
+        f = q.eat("id")[1]
+        q.eat("p", "=")
+        steps.append((f, q.cmp()))
+        q.eat("p", ";")
+    ret = q.eat("id")[1]
+    q.eat("p", "}")
+    if ret != onm:
+        raise Unsupported("run does not return its `out`")
+    out.append("/-- `<DirectForm1<f32> as Biquad<f32>>::run(&mut self, input)`: assignments in source order -/")
+    body = f"def run (d : Deps.DirectForm1) (input : F32) : Deps.DirectForm1 × F32 :=\n  let {onm} := {femit(oexp, 'd')}\n"
+    cur = "d"
+    for k, (f, e) in enumerate(steps):
+        nxt = f"d{k + 1}"
+        body += f"  let {nxt} : Deps.DirectForm1 := {{ {cur} with {f} := {femit(e, cur)} }}\n"
+        cur = nxt
+    body += f"  ({cur}, {onm})\n"
+    out.append(body)
+    i = seek(lt, ["fn", "update_coefficients", "(", "&", "mut", "self", ",", "new_coefficients"], i)
+    q.i = seek(lt, ["{"], i) + 1
+    q.eat("id", "self"); q.eat("p", "."); f = q.eat("id")[1]; q.eat("p", "="); v = q.eat("id")[1]; q.eat("p", ";"); q.eat("p", "}")
+    out.append("/-- `update_coefficients(&mut self, new_coefficients)` -/")
+    out.append(f"def update_coefficients (d : Deps.DirectForm1) (new_coefficients : Deps.Coefficients) : Deps.DirectForm1 :=\n  {{ d with {f} := {v} }}\n")
+    # ---- Hertz::<f32>::from_hz (behind `x.hz()`)
+    ft = flex(open(os.path.join(src, "frequency.rs")).read())
+    i = seek(ft, ["impl", "Hertz", "<", "f32", ">", "{"])
+    i = seek(ft, ["fn", "from_hz", "(", "hz", ":", "f32", ")"], i)
+    r = FP(ft)
+    r.i = seek(ft, ["{"], i) + 1
+    r.eat("id", "if")
+    c = r.cmp()
+    r.eat("p", "{"); r.eat("id", "Ok"); r.eat("p", "("); r.eat("id", "Hertz"); r.eat("p", "("); a = r.eat("id")[1]; r.eat("p", ")"); r.eat("p", ")"); r.eat("p", "}")
+    r.eat("id", "else"); r.eat("p", "{"); r.eat("id", "Err")
+    i2 = seek(ft, ["impl", "ToHertz", "<", "f32", ">", "for", "f32", "{"])
+    seek(ft, ["fn", "hz", "(", "self", ")", "->", "Hertz", "<", "f32", ">", "{", "Hertz", "::", "<", "f32", ">", "::", "from_hz", "(", "self", ")", ".", "unwrap", "(", ")", "}"], i2)
+    out.append("/-- `x.hz()` = `Hertz::<f32>::from_hz(x).unwrap()`; `none` = the `unwrap` panics -/")
+    out.append(f"def hz (hz : F32) : Option Deps.Hertz :=\n  if {femit(c)} then some ⟨{a}⟩ else none\n")
+    out.append("end Dep.biquad")
+    return "\n".join(out) + "\n", dict(biquad=vers.get("biquad"))
+
+
+def write_one(outd, name, fn, lock):
+    try:
+        text, info = fn(lock)
+        status = dict(status="translated", **info)
+    except (Unsupported, OSError, IndexError, KeyError, TypeError, ValueError) as e:
+        text = f"/-! GENERATED: the dependency source could not be translated: {type(e).__name__}: {e} -/\n"
+        status = dict(status="untranslated", reason=f"{type(e).__name__}: {e}")
+    p = os.path.join(outd, name + ".lean")
+    changed = not os.path.exists(p) or open(p).read() != text
+    if changed:
+        open(p, "w").write(text)
+    print(f"dep2lean: {name} {status['status']}" + (f" ({status.get('reason')})" if status["status"] != "translated" else "") + ("; rewritten" if changed else "; unchanged"))
+    return status
+
+
 def main():
     lock = sys.argv[1] if len(sys.argv) > 1 else os.path.join(ROOT, "harness", "Cargo.lock")
     outd = sys.argv[2] if len(sys.argv) > 2 else os.path.join(ROOT, "lean", "SynthVerif", "Gen", "Dep")
     os.makedirs(outd, exist_ok=True)
-    try:
-        text, info = translate(lock)
-        status = dict(status="translated", **info)
-    except (Unsupported, OSError, IndexError, KeyError, TypeError) as e:
-        text = f"/-! GENERATED: the dependency source could not be translated: {type(e).__name__}: {e} -/\n"
-        status = dict(status="untranslated", reason=f"{type(e).__name__}: {e}")
-    p = os.path.join(outd, "midi_convert.lean")
-    changed = not os.path.exists(p) or open(p).read() != text
-    if changed:
-        open(p, "w").write(text)
-    json.dump(status, open(os.path.join(outd, "report.json"), "w"), indent=1)
-    print(f"dep2lean: midi_convert {status['status']}" + (f" ({status.get('reason')})" if status["status"] != "translated" else "") + ("; rewritten" if changed else "; unchanged"))
+    rep = dict(midi_convert=write_one(outd, "midi_convert", translate, lock), biquad=write_one(outd, "biquad", translate_biquad, lock))
+    json.dump(rep, open(os.path.join(outd, "report.json"), "w"), indent=1)
 
 
 if __name__ == "__main__":
